@@ -22,8 +22,17 @@ def main():
     from yarl import _url
     be = "py" if os.environ.get("YARL_NO_EXTENSIONS") else "c"
     behaviours = json.load(open(src))
-    out = []
+    out, part = [], 0
+
+    def flush():
+        nonlocal out, part
+        if out:
+            with open(f"{outdir}/cache-{be}-{part:03d}.json", "w") as f:
+                json.dump(out, f, separators=(",", ":"))
+            out, part = [], part + 1
     for bi, beh in enumerate(behaviours):
+        if bi % 60 == 0:
+            flush()            # a trace file starts at a behaviour boundary (its first event re-initialises the model)
         yarl.cache_configure()      # the model's initial state: default sizes, empty, counters zero
         out.append({"kind": "begin", "id": f"{be}.cache.{bi}.begin", "info": info(yarl)})
         for si, c in enumerate(beh):
@@ -55,9 +64,8 @@ def main():
             ev["info"] = info(yarl)
             out.append(ev)
     yarl.cache_configure()
-    with open(f"{outdir}/cache-{be}.json", "w") as f:
-        json.dump(out, f, separators=(",", ":"))
-    print(json.dumps({"events": len(out)}))
+    flush()
+    print(json.dumps({"files": part}))
 
 
 if __name__ == "__main__":
